@@ -111,3 +111,16 @@ Definition check_preserved (src out : gsum) (psi phi : list (Z * Z)) : bool :=
   order_ok_from out (g_ops out) 0 &&
   (* source operators that disappeared are absorbed by an Ethos-U operator or folded *)
   unmapped_ok src out psi phi (map snd phi) 0 (g_ops src).
+
+(* ---- whole model: a list of subgraphs.  Subgraph k of the output is compared with subgraph k of the
+   source under its own witness (psi_k, phi_k); the numbers of subgraphs must agree.  The subgraph
+   indices held by WHILE / IF / CALL_ONCE options are part of the operator signature, so "same
+   signature" together with "same position in the list" pins the control-flow structure. *)
+Definition witness := (list (Z * Z) * list (Z * Z))%type.
+
+Definition check_sub (x : gsum * gsum * witness) : bool :=
+  let '(s, o, (psi, phi)) := x in check_preserved s o psi phi.
+
+Definition check_preserved_model (src out : list gsum) (wit : list witness) : bool :=
+  Nat.eqb (length src) (length out) && Nat.eqb (length wit) (length out) &&
+  forallb check_sub (combine (combine src out) wit).
